@@ -150,8 +150,10 @@ def handle (op : String) (args : List String) (impl : String) : Option Verdict :
       let e : Err String := .wrap (.coord (some c))
       let (m, tag) := second self t sid holders e retryable claimant arrivals
       return ⟨"run1=none;" ++ m, p11 self holders (.coord (some c)) retryable claimant.isSome impl, s!"exec:silent:retryable={retryable}:{tag}"⟩
-    let some (some leaf) := parseLeaf first | return bad
-    let e : Err String := .wrap (.wrap leaf)
+    -- `f:<code>`: watchExecution fails first (fail message from the coordinator), then the cancelled Run with <code>
+    let withFail := first.startsWith "f:"
+    let some (some leaf) := parseLeaf (if withFail then (first.drop 2).toString else first) | return bad
+    let e : Err String := if withFail then .pair (.wrap .other) (.wrap (.wrap leaf)) else .wrap (.wrap leaf)
     let run1 := if c = self then
         match initiate key ⟨self, holders, t, []⟩ ((holders.filter (· ≠ self)).take t) with
         | some (_, S) => "c:" ++ toks S
@@ -162,7 +164,7 @@ def handle (op : String) (args : List String) (impl : String) : Option Verdict :
     let ok := match intended e with
       | some k => p11 self holders k retryable claimant.isSome impl
       | none => true
-    return ⟨s!"run1={run1};" ++ m, ok, s!"exec:{if c = self then "coordinator" else "participant"}:retryable={retryable}:{classTag (intended e)}:{tag}"⟩
+    return ⟨s!"run1={run1};" ++ m, ok, s!"exec:{if c = self then "coordinator" else "participant"}:withfail={withFail}:retryable={retryable}:{classTag (intended e)}:{tag}"⟩
   | _, _ => none
 
 end Sygma.Drv.C11
